@@ -1,0 +1,24 @@
+//go:build verif
+
+package ring
+
+// VerifFailpoint, when set by a verification harness, is consulted at named points; a non-nil
+// error makes the surrounding function stop there, as a crash at that point would.
+var VerifFailpoint func(point string) error
+
+func verifFailpoint(point string) error {
+	if f := VerifFailpoint; f != nil {
+		return f(point)
+	}
+	return nil
+}
+
+// VerifYield, when set by a verification harness, is called at named points between two
+// atomic operations so that the harness can interleave goroutines deterministically.
+var VerifYield func(point string)
+
+func verifYield(point string) {
+	if f := VerifYield; f != nil {
+		f(point)
+	}
+}
